@@ -4,9 +4,10 @@ from props import world_common as wc
 
 HARNESSES = wc.HARNESSES
 LEVEL_WITHOUT_PROOF = "other"
-# Props/C03.lean proves the callback/live-count bookkeeping only; the per-slot construct/destroy order is decided on the
-# implementation by instrumented types, so the property as a whole is not claimed at level "proof"
-FORCE_LEVEL = "other"
+# Props/C03.lean: callback / live-count bookkeeping; Props/C03Life.lean: the lifecycle EVENT model (WM.events) and the theorem that
+# every step's event log is accepted by the per-slot live/dead automaton (step_events_accepted, run_events_accepted,
+# teardown_leaves_nothing); the event counts of the instrumented types are compared with the implementation op by op (EV lines)
+EXTRA_PROPS = ["C03Life"]
 
 CFG = dict(
     mix=dict(create=4, assign=4, assign0=3, remove=3, build=3, destroynow=2, destroy=1, update=1, clone=1, cleararch=1, lock=1, unlock=1, dump=1),
